@@ -442,7 +442,7 @@ func runC18Mirror(r *Run, rng *Rng, hn int) {
 			defer mu.Unlock()
 			if armed && c.Kind == OpLockReplace {
 				armed = false
-				return Decision{Apply: false, Err: errInjected}
+				return Decision{Apply: false, Err: rotatingInjectedErr()}
 			}
 			return decideOK
 		}
